@@ -23,19 +23,22 @@ PLAN = {"C17": {
     "thorough": {"runs": 2000, "wall_cap": 1700, "chunk": 2, "selftest": 8},
 }}
 RULE = {"C17": (
-    "one evaluation = one batch of ~36 seeded cases (api, network, arguments, integer seed) covering every public "
+    "one evaluation = one batch of ~45 seeded cases (api, network, arguments, integer seed) covering every public "
     "seeded operation (random-greedy serial/pool, random optimizer, labels/kahypar divide+agglom builders, tree.slice, "
     "SliceFinder, subtree_reconfigure in all select/search modes, forest variant serial/pool, simulated_anneal +/- "
     "slicing, parallel_temper serial/pool, unslice_rand, get_subtree(random), windowed_reconfigure, compressed greedy "
     "finders, and the random network/array generators) executed in 4 fresh interpreters that differ in PYTHONHASHSEED, "
     "global random/numpy state and drift between cases, warm-up history of unrelated cotengra calls, case order and "
-    "pool completion order (same worker count); per-case result digests must agree. distinct_nontrivial counts "
+    "pool completion order (same worker count); per-case result digests must agree. Some cases use the boundary seeds "
+    "0 / 1 / 2^32-1, issue the same call twice on one object or after other seeded calls, or issue 2-3 seeded calls from "
+    "simulated threads pre-empted at line granularity (schedule from the environment). distinct_nontrivial counts "
     "distinct (api, argument-shape) case kinds evaluated across environments."
 )}
 COMPONENTS = {
     "real": ["every seeded cotengra API under test, in fresh interpreters", "kahypar (native partitioner)", "numpy Generator based array makers"],
     "stub": ["environment: PYTHONHASHSEED, global random / numpy.random state, history of earlier calls and case order are set by the simulator",
-             "worker pool -> sim.pool.SimPool with a per-environment completion order (same worker count)", "time -> virtual clock"],
+             "worker pool -> sim.pool.SimPool with a per-environment completion order (same worker count)", "time -> virtual clock",
+             "concurrent callers -> baton scheduler over real threads, every cotengra function pre-emptible, schedule per environment"],
 }
 ASSUMPTIONS = {"C17": [
     "cases are generated once in the parent and shipped as JSON, so every environment sees byte-identical arguments",
@@ -66,6 +69,23 @@ def _net(rng, n_lo, n_hi, plain=False, dims=(2, 3)):
         i, o, s = netgen.gen_network(rng, n_min=n_lo, n_max=n_hi, max_inds=3 * n_hi, dims=dims, max_rank=4, space_cap=2 ** 80, feat=feat)
         if s and all(len(t) > 0 for t in i):
             return {"inputs": i, "output": o, "size_dict": s}
+
+
+def _dense_net(rng):
+    """10-13 tensors, ~30 indices each shared by 2-6 tensors plus two shared by all: a single greedy trial scores
+    400-550 candidate pairs (path finding only; nothing this size is ever contracted)."""
+    n = rng.randint(10, 13)
+    terms = [[] for _ in range(n)]
+    sizes = {}
+    for q in range(rng.randint(26, 34)):
+        ix = netgen.SYMS[q]
+        sizes[ix] = rng.choice([2, 2, 3])
+        k = n if q < 2 else rng.choice([2, 2, 3, 3, 4, 5, 6])
+        for t in rng.sample(range(n), k):
+            terms[t].append(ix)
+    for t in terms:
+        rng.shuffle(t)
+    return {"inputs": terms, "output": [netgen.SYMS[2]] if any(netgen.SYMS[2] in t for t in terms) else [], "size_dict": sizes}
 
 
 def _pool(rng):
@@ -100,6 +120,11 @@ def gen_cases(rng):
     add("rgreedy", {"max_repeats": rng.randint(2, 6)}, mid())
     add("rgreedy", {"max_repeats": rng.randint(4, 8)}, mid(), pool=_pool(rng))
     add("rgreedy_track", {"ntrials": rng.randint(1, 4)}, mid())
+    # a dense network with hyper indices: one greedy trial scores several hundred candidate pairs (batched / buffered
+    # random draws have to be refilled within one trial)
+    dense = _dense_net(rng)
+    add("rgreedy", {"max_repeats": rng.randint(1, 3)}, dense)
+    add("rgreedy_track", {"ntrials": rng.randint(1, 3)}, dense)
     add("random_opt", {}, mid())
     for part in ("labels", "kahypar"):
         add("divide", {"partitioner": part, "kw": {"cutoff": rng.randint(2, 5), "parts": rng.randint(2, 3), "random_strength": rng.choice([0.01, 0.5])}}, big())
@@ -118,6 +143,20 @@ def gen_cases(rng):
     add("anneal", {"kw": {"tsteps": 2, "numiter": 3}}, mid(), tree=True, twice=True)
     add("temper", {"kw": {"tsteps": 2, "num_trees": 2, "numiter": 2}}, mid(), tree=True, twice=True)
     add("slicefinder", {"kw": {"target_size": 2 ** rng.randint(1, 4), "temperature": rng.choice([0.01, 1.0])}, "max_repeats": rng.randint(1, 6)}, mid(), tree=True)
+    # ... and the same seeded call twice in one interpreter for operations that take no tree (memoised tables, module state)
+    part = rng.choice(["labels", "kahypar"])
+    add(rng.choice(["divide", "agglom"]), {"partitioner": part, "kw": {"random_strength": rng.choice([0.01, 0.5])}}, big(), twice=True)
+    k = rng.randrange(5)
+    if k == 0:
+        add("rgreedy", {"max_repeats": rng.randint(2, 5)}, mid(), twice=True)
+    elif k == 1:
+        add("random_opt", {}, mid(), twice=True)
+    elif k == 2:
+        add("greedy_span", {"kw": {"start": "max", "temperature": 0.5}}, _net(rng, 6, 10, plain=True), twice=True)
+    elif k == 3:
+        add("rand_equation", {"kw": {"n": rng.randint(3, 10), "reg": 3, "n_out": 1, "d_max": 4}}, twice=True)
+    else:
+        add("jitter_dict", {"strength": rng.choice([0.01, 1.0])}, mid(), twice=True)
     for select in ("max", "min", "random"):
         for search in ("bfs", "dfs", "random"):
             if rng.random() < 0.55 or (select, search) == ("random", "random"):
